@@ -164,6 +164,23 @@ class SlowArg:
         self.__dict__.update(st)
 
 
+class SlowState:
+    """a user_state value that takes 2 s to rebuild wherever it is unpickled (the parent of a process / remote worker)"""
+    def __init__(self, k):
+        self.k = k
+
+    def __eq__(self, o):
+        return type(o) is type(self) and o.k == self.k
+
+    def __getstate__(self):
+        return {'k': self.k}
+
+    def __setstate__(self, st):
+        import time
+        time.sleep(2.0)
+        self.__dict__.update(st)
+
+
 def t_sleep(mpath, n=1):
     import time
     mark(mpath, 'start')
@@ -221,7 +238,8 @@ class _Stateful:
             mark(mpath, 'us_post none')
             return r
         mark(mpath, 'us_pre %d' % (base + 2))
-        self.user_state = base + 2
+        slow = kwargs.get('n') == 97 or (len(args) > 1 and args[1] == 97)
+        self.user_state = SlowState(base + 2) if slow else base + 2      # (97: the last value takes a while to reach the parent)
         mark(mpath, 'us_post %d' % (base + 2))
         return r
 
